@@ -117,7 +117,8 @@ def QMsg.view (m : QMsg) (ack : Bool := false) : View :=
 def QMsg.snOf (m : QMsg) (ack : Bool) : Option Nat := if ack then none else some m.sn
 
 inductive Out where
-  | tx (tls : Bool) (v : View) (sn : Option Nat)     -- a PDU written; tls = through coap_dtls_send (else plain netif write)
+  | tx (tls : Bool) (v : View) (sn : Option Nat) (cnt : Nat)   -- a PDU written; tls = through coap_dtls_send (else plain netif
+                                                     -- write); cnt = the node's retransmit_cnt: 0 = a FIRST transmission
   | req (tok payload : String)                       -- request handler called
   | rsp (tok : String) (code : Nat)                  -- response handler called
   | nack (r : Nack) (tok : Option String) (sn : Option Nat)
@@ -313,7 +314,7 @@ def sndResult (c : Ctx) : Ctx :=
 
 /-- coap_dtls_send up to the event handling (the harness logs the PDU at entry) -/
 def dtlsSendCore (m : QMsg) (ack : Bool) (c : Ctx) : Ctx :=
-  let c := c.emit (.tx true (m.view ack) (m.snOf ack))
+  let c := c.emit (.tx true (m.view ack) (m.snOf ack) m.cnt)
   let c := c.upd fun s => { s with dtlsEvent := none }
   if c.s.est then c.sndResult
   else
@@ -350,7 +351,7 @@ def tlsTail (c : Ctx) : Ctx :=
 /-- coap_tls_write on a session whose GnuTLS handshake is complete: gnutls_record_send and the switch over its result;
 ret 1 = everything written, 0 = nothing (EAGAIN), -1 = error -/
 def tlsRecordSend (m : QMsg) (ack : Bool) (c : Ctx) : Ctx :=
-  let c := c.emit (.tx true m.strmView (m.snOf ack))
+  let c := c.emit (.tx true m.strmView (m.snOf ack) m.cnt)
   let c := c.upd fun s => { s with dtlsEvent := none }
   let c := c.popSnd
   let c :=
@@ -379,7 +380,7 @@ def sendCsm (c : Ctx) : Ctx :=
 def tlsWrite (m : QMsg) (ack : Bool) (c : Ctx) : Ctx :=
   if c.s.est then c.tlsRecordSend m ack
   else
-    let c := c.emit (.tx true m.strmView (m.snOf ack))
+    let c := c.emit (.tx true m.strmView (m.snOf ack) m.cnt)
     let c := c.upd fun s => { s with dtlsEvent := none }
     let c := c.doHandshake
     let c := if c.ret = 1 then ((c.emit (.ev .connected)).sendCsm).setRet 0 else c.setRet (-1)
@@ -389,7 +390,7 @@ def tlsWrite (m : QMsg) (ack : Bool) (c : Ctx) : Ctx :=
 coap_tls_write (TLS) — coap_layers.c -/
 def sessionSendPdu (m : QMsg) (ack : Bool) (c : Ctx) : Ctx :=
   match c.s.proto with
-  | .udp => (c.emit (.tx false (m.view ack) (m.snOf ack))).setRet 1
+  | .udp => (c.emit (.tx false (m.view ack) (m.snOf ack) m.cnt)).setRet 1
   | .dtls => dtlsSend m ack c
   | .tls => tlsWrite m ack c
 
